@@ -1592,7 +1592,31 @@ def channel_delivery_ok(items1, items2, merge, same_channel: bool, callback2: bo
 def close_ordering_ok(items, cause: str, sibling_items, extra_receives: int, chunks) -> bool:
     """Side A sends `items` on a channel and then closes it by `cause` (close / exec_end / drop); a sibling
     channel carries traffic before and after.  Checks the closing side and the peer."""
-    if cause == "exec_end":
+    if cause == "sendonly_then_close":
+        # the peer dropped a callback channel (CHANNEL_LAST_MESSAGE): this side is send-only; then it closes
+        A = make_gateway(ref_frame(gb.Message.CHANNEL_LAST_MESSAGE, 1, b""))
+        ch = A.newchannel()
+        pump_frames(A)
+        if ch.isclosed():
+            return False
+        for x in items:
+            ch.send(x)            # still allowed: the peer's callback keeps receiving
+        ch.close()
+        if not ch.isclosed():
+            return False
+        try:
+            ch.send(0)
+            return False
+        except OSError:
+            pass
+        ch.waitclose()
+        n = len(sent_frames(A))
+        ch.close()
+        if len(sent_frames(A)) != n:
+            return False
+        data = [f for f in sent_frames(A) if f[0] == gb.Message.CHANNEL_DATA and f[1] == ch.id]
+        return len(data) == len(items)
+    if cause in ("exec_end", "exec_end_eof"):
         A = make_gateway(b"", cls=gb.WorkerGateway, startcount=2)
         A._executetask_complete = None
         ch = A._channelfactory.new(1)
@@ -1600,9 +1624,9 @@ def close_ordering_ok(items, cause: str, sibling_items, extra_receives: int, chu
         if sibling_items:
             sib.send(sibling_items[0])
         src = "".join(f"channel.send({x!r})\n" for x in items) + "pass\n"
+        tail = "raise EOFError()\n" if cause == "exec_end_eof" else ""   # e.g. a receive on another, already closed channel
         try:
-            inside = []
-            A.executetask((ch, (src + "try:\n    channel.close()\nexcept OSError:\n    channel.send('refused')\n", None, None, {})))
+            A.executetask((ch, (src + "try:\n    channel.close()\nexcept OSError:\n    channel.send('refused')\n" + tail, None, None, {})))
         except Exception:
             return False
         items = list(items) + ["refused"]     # an explicit close from inside is refused, the body carries on
@@ -1638,7 +1662,7 @@ def close_ordering_ok(items, cause: str, sibling_items, extra_receives: int, chu
     mine = [f for f in frames if f[1] == ch.id]
     if len(mine) != len(items) + 1 or mine[-1][0] != gb.Message.CHANNEL_CLOSE:
         return False            # data frames first, exactly one close frame last
-    B = feed(A, startcount=1 if cause == "exec_end" else 2, chunks=chunks)
+    B = feed(A, startcount=1 if cause.startswith("exec_end") else 2, chunks=chunks)
     p = B._channelfactory.new(ch.id)
     ps = B._channelfactory.new(sib.id)
     B._thread_receiver()
@@ -1707,10 +1731,14 @@ def channel_transfer_ok(n_pre: int, nested: int, item) -> bool:
     own = B.newchannel()
     if own.id % 2 != 0:
         return False                         # the worker side hands out even ids only: never equal to an id of A
-    B._thread_receiver()
+    pump_frames(B)                           # (all frames handled; the connection stays up)
     try:
         got = recv_nb(pc)
     except Exception:
+        return False
+    # having seen the peer's ids must not change what this side hands out: still even, still fresh
+    own2 = B.newchannel()
+    if own2.id % 2 != 0 or own2.id == own.id or own2.id in ids:
         return False
     gx = got if nested == 0 else (got[1] if nested == 1 else got["k"][0])
     if type(gx) is not gb.Channel or gx.id != x.id or gx.gateway is not B:
